@@ -47,6 +47,8 @@ pub const ACTIONS: &[&str] = &[
     "lock-own-context-read",
     "lock-own-context-write",
     "execute-on-own-context",
+    "recurse-on-own-context-depth2",
+    "recurse-on-own-context-depth3",
 ];
 
 fn applies(_kind: &str, _action: &str) -> bool {
@@ -140,6 +142,19 @@ fn act(kind: &str, action: &'static str, own: Option<Context>) {
                 let mut ctx = make_context(kind, action);
                 let r = parse_expression(prog).and_then(|t| t.exec(&mut ctx));
                 ok(r.ok() == Some(want), "nested evaluation");
+            }
+            DEPTH.fetch_sub(1, Ordering::SeqCst);
+        }
+        "recurse-on-own-context-depth2" | "recurse-on-own-context-depth3" => {
+            // bounded self-recursion: the same program again on the SAME context (so a context
+            // function is reached again through the same name in the same context)
+            let limit = if action.ends_with('2') { 2 } else { 3 };
+            let d = DEPTH.fetch_add(1, Ordering::SeqCst) + 1;
+            if d < limit {
+                let (prog, want) = program(kind);
+                let mut c = own.expect("own context");
+                let r = parse_expression(prog).and_then(|t| t.exec(&mut c));
+                ok(r.ok() == Some(want), "nested evaluation on the own context");
             }
             DEPTH.fetch_sub(1, Ordering::SeqCst);
         }
